@@ -833,7 +833,8 @@ class ConsumerMdib(mdibbase.MdibBase):
                     'process_incoming_descriptors: got update of state "{}" , but it did not exist in mdib!',
                     state_container.DescriptorHandle,
                 )
-        else:
+        elif self._has_new_state_usable_state_version(old_state_container, state_container, 'descriptors'):
+            # same rule as for state reports: a duplicated or delayed report never reduces a state version
             old_state_container.update_from_other_container(state_container)
             if state_container.descriptor_container is not None:
                 # the descriptor object might have been replaced (CREATE part)
